@@ -14,6 +14,11 @@ def setup():
     mkdriver.main()
     for k, v in res.items():
         print('translated', k, 'changed' if v[1] else 'same')
+    # remove generated modules no generator owns any more (e.g. a library that was removed)
+    for f in os.listdir(translate.GEN_DIR):
+        if f.endswith('.lean') and f[:-5] not in translate.REGISTRY:
+            os.remove(os.path.join(translate.GEN_DIR, f))
+            print('removed stale', f)
     with common.Lock():
         rc, out = common.run_cmd(['lake', 'build'], cwd=common.LEAN_DIR, timeout=7000)
     print(out[-3000:])
